@@ -195,11 +195,23 @@ class Driver:
         args, exp_args = [], []
         this_iid = 0
         wp = list(w["params"])
+        exp_eid = x["eid"]
         if x["kind"] == "method":
-            alive = [h for h in self.pool[cls["qname"]] if h not in self.dead]
-            if not alive:
-                return False
-            h = self.rng.choice(alive)
+            h = None
+            # sometimes call the base-class wrapper on an object of a derived class (through the static_cast the
+            # client would obtain from the database's upcast): virtual methods must dispatch to the override
+            if self.rng.random() < 0.4:
+                h, dyn = self.derived_this(cls["qname"])
+                if h is not None:
+                    exp_eid = self.dispatch(x, dyn)
+                    self.features.add("this:derived-object" + (":virtual" if x.get("virtual") else ""))
+                    if exp_eid != x["eid"]:
+                        self.features.add("this:derived-object:override-expected")
+            if h is None:
+                alive = [h for h in self.pool[cls["qname"]] if h not in self.dead]
+                if not alive:
+                    return False
+                h = self.rng.choice(alive)
             args.append(h)
             this_iid = self.iid(h)
             wp = wp[1:]
@@ -229,24 +241,33 @@ class Driver:
         except Exception as ex:
             # only the -python back-end can raise; a category-exact, in-range call must not
             wide = "none"
-            for mp, a in zip(ps, args[(1 if x["kind"] == "method" else 0):]):
+            off = 1 if x["kind"] == "method" else 0
+            for i, (mp, a) in enumerate(zip(ps, args[off:])):
                 if mp["type"]["k"] == "int" and isinstance(a, int) and not (-2 ** 31 <= a < 2 ** 31):
-                    wide = tkind(mp["type"])
-                    break
+                    # the culprit is the wide argument whose replacement by 1 makes the exception go away
+                    trial = list(args)
+                    trial[off + i] = 1
+                    try:
+                        f(*trial)
+                        wide = tkind(mp["type"])
+                        break
+                    except Exception:
+                        continue
             self.trace()
             self.bad(f"wrapper-raised:{type(ex).__name__}:wide-arg={wide}", fn=x["qname"], msg=str(ex)[:100])
             return True
         tr = self.trace()
         self.count("wrapper_calls")
-        evs = [l for l in tr if l.startswith("E %d " % x["eid"])]
-        others = [l for l in tr if l.startswith("E ") and not l.startswith("E %d " % x["eid"])]
+        evs = [l for l in tr if l.startswith("E %d " % exp_eid)]
+        others = [l for l in tr if l.startswith("E ") and not l.startswith("E %d " % exp_eid)]
         model_copy_eids = {c["copy_ctor"]["eid"] for c in self.m["classes"]}
         stray = [l for l in others if int(l.split()[1]) not in model_copy_eids]
         if not evs and not stray:
-            self.bad(f"body-not-executed:{x['kind']},ret=" + tkind(x["ret"]), fn=x["qname"], expected_eid=x["eid"])
+            self.bad(f"body-not-executed:{x['kind']},ret=" + tkind(x["ret"]), fn=x["qname"], expected_eid=exp_eid)
             return True
         if len(evs) != 1 or stray:
-            self.bad(f"wrong-function-ran:{x['kind']}", fn=x["qname"], expected_eid=x["eid"], trace=tr[:6])
+            self.bad(f"wrong-function-ran:{x['kind']}" + (":virtual-dispatch" if exp_eid != x["eid"] else ""),
+                     fn=x["qname"], expected_eid=exp_eid, trace=tr[:6])
             return True
         self.count("trace_events_compared")
         fields = dict(p.split("=", 1) for p in evs[0].split()[2:])
@@ -280,6 +301,79 @@ class Driver:
         except Exception:
             return False
 
+    # ---- objects of derived classes used through a base-class handle
+    def paths_to(self, dq, bq, seen=()):
+        """chain of (derived, base) static_cast steps from class dq up to bq, or None"""
+        if dq == bq:
+            return []
+        for b in self.classes[dq]["bases"]:
+            if b["qname"] in self.classes:
+                p = self.paths_to(b["qname"], bq)
+                if p is not None:
+                    return [(dq, b["qname"])] + p
+        return None
+
+    def derived_this(self, bq):
+        cands = []
+        for dq in self.classes:
+            if dq != bq:
+                p = self.paths_to(dq, bq)
+                alive = [h for h in self.pool.get(dq, []) if h not in self.dead]
+                if p and alive:
+                    cands.append((dq, p, alive))
+        if not cands:
+            return None, None
+        dq, p, alive = self.rng.choice(cands)
+        h = self.rng.choice(alive)
+        for d, b in p:
+            f = getattr(self.lib, "vf_cast_%s__%s" % (d.replace("::", "_"), b.replace("::", "_")), None)
+            if f is None:
+                return None, None
+            f.restype = ctypes.c_void_p
+            f.argtypes = [ctypes.c_void_p]
+            h = f(h)
+        return h, dq
+
+    def dispatch(self, x, dyn):
+        """entity id of the body C++ runs for base method x on an object of dynamic class dyn"""
+        if not x.get("virtual"):
+            return x["eid"]
+        # methods that (transitively) override x
+        over = {x["qname"]: x}
+        changed = True
+        allm = [m for c in self.m["classes"] for m in c["methods"]]
+        while changed:
+            changed = False
+            for m in allm:
+                if m.get("overrides") in over and m["qname"] not in over:
+                    over[m["qname"]] = m
+                    changed = True
+        # the final overrider: the overrider declared in the most derived class among dyn and its ancestors
+        # (libgen never builds non-virtual diamonds, so the base subobject is unique)
+        cands = []
+        for q in self.classes:
+            if q == dyn or self.paths_to(dyn, q) is not None:
+                for m in self.classes[q]["methods"]:
+                    if m["qname"] in over:
+                        cands.append((q, m))
+        for q, m in cands:
+            if not any(q2 != q and self.paths_to(q2, q) is not None for q2, _ in cands):
+                return m["eid"]
+        return x["eid"]
+
+    def kind_fits(self, mt, tidx):
+        t = self.T.get(tidx)
+        if t is None:
+            return False
+        k = mt["k"]
+        if k in ("int", "bool", "float"):
+            return bool(t["is_atomic"]) and t["atomic_token"] in ({"int": (1, 5, 8), "bool": (4,), "float": (2, 3)}[k])
+        if k in ("string", "cstr"):
+            return (t["is_atomic"] and t["atomic_token"] == 7) or t["is_pointer"]
+        if k == "enum":
+            return bool(t["is_enum"])
+        return bool(t["is_pointer"] or t["is_wrapped"])
+
     # ---- matching model variants to wrappers (by ordered parameter names)
     def variants(self):
         out = []
@@ -304,11 +398,21 @@ class Driver:
                         nd += 1
                     for k in range(nd + 1):
                         ps = x["params"][:len(x["params"]) - k]
+                        cands = []
                         for w in ws:
                             wp = [p for p in w["params"] if not p["is_this"]]
                             if [p["name"] for p in wp] == [p["name"] for p in ps] and w["name"]:
-                                out.append((x, ps, w, c))
+                                cands.append((w, wp))
+                        # same parameter names in two overloads: take the one whose recorded type kinds fit
+                        best = None
+                        for w, wp in cands:
+                            if all(self.kind_fits(mp["type"], dp["type"]) for mp, dp in zip(ps, wp)):
+                                best = w
                                 break
+                        if best is None and cands:
+                            best = cands[0][0]
+                        if best is not None:
+                            out.append((x, ps, best, c))
         return out
 
     def run(self):
